@@ -82,3 +82,27 @@ Theorem C12_GMIX_grad : forall k m xs ys (bs1 bs2 : list (list R)) bpre bpost x,
   blocks k m xs = bs1 ++ b :: bs2 -> nR b = INR m -> 1 < INR m -> 0 < var b ->
   is_derive (fun t => GMIX_cell_blocks k (bs1 ++ (bpre ++ t :: bpost) :: bs2) ys) x (GMIX_grad k m xs ys b x).
 Proof. exact GMIX_grad_model. Qed.
+
+(* ---- re-ordering and splitting time points, through any nesting of composed filters (Model/FilterOrder.v) ---- *)
+Close Scope R_scope.
+From Chi Require Import Model.FilterOrder Proofs.FilterOrder.
+(* every simulated time point j is scored against the data column the filter presents at position j: the code's
+   argsort / fancy indexing / slicing realises, as a set of (data column, simulated column) pairs, the specification *)
+Theorem C12_order_pairs : forall (S D : Type) (s0 : S) (d0 : D) (t : ftree D), fwf D t ->
+  forall sims, length sims = n_times D t ->
+  Permutation (pairs S D s0 d0 t sims) (combine (presented D d0 t) sims).
+Proof. exact pairs_spec. Qed.
+(* the sensitivities come back in the ordering of the input *)
+Theorem C12_order_sensitivities : forall (D G : Type) (d0 : D) (g0 : G) (leaf_sens : D -> G) (t : ftree D), fwf D t ->
+  sens D G d0 g0 leaf_sens t = map leaf_sens (presented D d0 t).
+Proof. exact sens_spec. Qed.
+(* numpy.argsort of a permutation is its inverse (what the composed filter relies on) *)
+Theorem C12_argsort_inverse : forall order n j, Permutation order (seq 0 n) -> j < n ->
+  nth (nth j order 0) (argsort order) 0 = j /\ nth (nth j (argsort order) 0) order 0 = j.
+Proof. exact argsort_inverse. Qed.
+(* a composition that unpacks nested compositions and drops their orders scores other pairs *)
+Theorem C12_unpacking_refuted : exists (t : ftree nat) (flatten : ftree nat) (sims : list nat),
+  fwf nat t /\ length sims = n_times nat t /\
+  flatten = FNode nat None [FLeaf nat [10] None; FLeaf nat [11] None] /\
+  ~ Permutation (pairs nat nat 0 0 flatten sims) (pairs nat nat 0 0 t sims).
+Proof. exact unpacking_refuted. Qed.
